@@ -246,6 +246,20 @@ def run_property(prop, tasks, tier, seed, level_text, assumptions, update_ledger
         trusted.update(o['trusted'])
         if 'error' in o:
             errors.append(o)
+    # frame condition behind every per-call contract: the functions under contract keep no state outside their arguments (module-level mutable
+    # containers, globals, caching decorators) -- syntactic, from the current source
+    for q in sorted(functions):
+        try:
+            hs = intake.hidden_state(q)
+        except Exception:
+            continue
+        rid = f'{prop}/frame/no_state_outside_the_arguments/{q}'
+        if hs:
+            results.append(dict(id=rid, kind='vc', status='unknown', backend='ast', time=0.0,
+                                reason=f'refers to module-level mutable state, a global or a caching decorator ({sorted(hs)}): not a function of its '
+                                       'arguments alone, so a per-call contract says nothing about a later call'))
+        else:
+            results.append(dict(id=rid, kind='vc', status='proved', backend='ast', time=0.0))
     ledger = load_json(LEDGER, {})
     known = load_json(KNOWN, [])
     vcs = [r for r in results if r['kind'] == 'vc']
